@@ -223,6 +223,46 @@ def lexlen_grammar(rng):
     return None
 
 
+def lexamb_grammar(rng):
+    """grammars over declared terminals that match the SAME text at the same position (A='a',
+    B='b', X=/[ab]/, Y=/a/, Z=/b/): under GLR (no lexical disambiguation) one frontier is
+    reduced once per lookahead symbol, so equal stretches of input are packed by several
+    sub-frontiers; half of the time around a small ambiguous core"""
+    tdecl = {"A": "'a'", "B": "'b'", "X": "/[ab]/", "Y": "/a/", "Z": "/b/"}
+    for _ in range(200):
+        nts = ["S", "E", "F"][: rng.randint(2, 3)]
+        terms = rng.sample(["A", "B", "X", "Y", "Z"], rng.randint(3, 5))
+        prods = []
+        core = rng.random() < 0.5
+        for l in nts:
+            alts = []
+            if core and l == "E":
+                op = rng.choice(terms)
+                alts = [["E", op, "E"], [rng.choice(terms)]] if rng.random() < 0.6 else \
+                    [["E", "E"], [rng.choice(terms)]]
+            elif core and l == "S":
+                ts = rng.sample(terms, 2)
+                alts = [["E", ts[0]], ["E", ts[1]]]
+                if rng.random() < 0.4:
+                    alts.append(["E"])
+            else:
+                n_alt = rng.randint(2, 3)
+                while len(alts) < n_alt:
+                    k = rng.randint(1, 3)
+                    a = [rng.choice(nts) if rng.random() < 0.45 else rng.choice(terms) for _ in range(k)]
+                    if a not in alts:
+                        alts.append(a)
+            prods.append((l, alts))
+        q = [(l, [["'%s'" % x if x in tdecl else x for x in a] for a in alts]) for l, alts in prods]
+        if productive_reachable(q):
+            used = sorted(set(x for _, alts in prods for a in alts for x in a if x in tdecl))
+            if len(used) < 2:
+                continue
+            decl = "\nterminals\n" + "\n".join("%s: %s;" % (t, tdecl[t]) for t in used)
+            return prods, gr_text(prods) + decl
+    return None
+
+
 def lr1_twin_grammar(rng):
     """Grammars built around the classic LR(1)-but-not-LALR(1) core (two states with equal
     kernels whose merge would add a reduce/reduce conflict, so parglare keeps them apart),
